@@ -455,7 +455,28 @@ func runC10Size(e *Env, p *Plan) {
 	}
 	hc := &http.Client{Transport: &http.Transport{DialContext: e.N.Dialer(false), DisableKeepAlives: true}}
 	tok := 1
-	for _, n := range []int64{L - 1, L, L + 1} {
+	// ... and a small valid request after each, which must be unaffected by what
+	// came before (n = -1)
+	for _, n := range []int64{L - 1, -1, L, -1, L + 1, -1, L + 1, -1} {
+		if n == -1 {
+			if L < 64 {
+				continue
+			}
+			w.Register(Op{Kind: "call", Tok: tok, Client: 99})
+			body := []byte(fmt.Sprintf(`{"jsonrpc":"2.0","id":%d,"method":"T.Call","params":[%d]}`, tok, tok))
+			resp, err := hc.Post("http://"+p.Servers[0].Addr+"/rpc", "application/json", bytes.NewReader(body))
+			if err != nil {
+				e.Violate("C10.server-keeps-answering", "valid request after a refused body failed at transport level: %v", err)
+			} else {
+				rb, _ := io.ReadAll(resp.Body)
+				resp.Body.Close()
+				if want := fmt.Sprintf(`"result":"R%d:"`, tok); !strings.Contains(string(rb), want) || e.Tok(tok).Execs != 1 {
+					e.Violate("C10.server-keeps-answering", "a small valid request sent after bodies around the size limit got %q (handler ran %d times)", trunc(string(rb)), e.Tok(tok).Execs)
+				}
+			}
+			tok++
+			continue
+		}
 		if n <= 0 {
 			continue
 		}
